@@ -29,6 +29,7 @@ and later writes), dynamic attribute names, exec/eval.
 """
 import ast
 import os
+import re
 from collections import OrderedDict
 
 EXCLUDE_DIRS = ("torch", "jax", "pyro", "examples")
@@ -102,6 +103,9 @@ CONTAINER_MUT_METHODS = {"append", "extend", "insert", "pop", "popitem", "remove
                          "setdefault", "add", "discard", "move_to_end", "reverse", "appendleft",
                          "difference_update", "intersection_update", "symmetric_difference_update",
                          "__setitem__", "__delitem__", "__setattr__"}
+INPLACE_DUNDER = re.compile(r"__i(add|sub|mul|truediv|floordiv|mod|pow|and|or|xor|matmul|lshift|rshift|concat)__")
+OPERATOR_INPLACE = {"iadd", "isub", "imul", "itruediv", "ifloordiv", "imod", "ipow", "iand", "ior", "ixor",
+                    "imatmul", "ilshift", "irshift", "iconcat", "setitem", "delitem"}
 NP_INPLACE_FUNCS = {"put", "copyto", "place", "putmask", "fill_diagonal", "put_along_axis", "shuffle"}
 NP_UFUNC_INPLACE_ATTRS = {"at"}          # np.add.at(x, …)
 
@@ -384,6 +388,9 @@ class FuncScan:
                     return FA if attr == "deepcopy" else FO
                 if recv.id == "math":
                     return IM
+                if recv.id == "operator" and attr in OPERATOR_INPLACE and e.args:
+                    self.site(e, "npInplace", e.args[0], env)
+                    return N
                 if recv.id == "collections" and attr in FRESH_CTORS:
                     return FO
                 if recv.id == "typing" and attr == "get_type_hints":
@@ -392,7 +399,7 @@ class FuncScan:
                     return self.sc.summary(self.file, attr)
                 return N
             rv = self.ev(recv, env)
-            if attr in ARRAY_INPLACE_METHODS:
+            if attr in ARRAY_INPLACE_METHODS or INPLACE_DUNDER.fullmatch(attr):
                 self.site(e, "arrayMethod", recv, env)
                 return N
             if attr in CONTAINER_MUT_METHODS:
